@@ -241,8 +241,9 @@ impl<T: Types> FlushWorker<T> {
         }
 
         while files.len() > 1 {
-            let f = files.remove(0);
-            f.f.sync_data()?;
+            // Keep the file tracked until it is successfully synced.
+            files[0].f.sync_data()?;
+            files.remove(0);
         }
 
         // The second last and before are all closed,
